@@ -175,6 +175,7 @@ pub struct ExecOut {
     pub render_problem: Option<String>,
     pub writer_problem: Option<String>,
     pub json_problem: Option<String>,
+    pub concurrent_render_problem: Option<String>,
     pub supply_faults: u32,
     pub cancelled_companion: bool,
     /// gated supplier only: full module key -> (calls, max in flight)
@@ -201,6 +202,40 @@ impl Write for FailingWriter {
         let n = if self.short { buf.len().min(room).min(7).max(1) } else { buf.len().min(room) };
         self.written += n;
         Ok(n)
+    }
+    fn flush(&mut self) -> std::io::Result<()> {
+        Ok(())
+    }
+}
+
+/// A writer during one of whose write calls another OS thread processes and renders an
+/// unrelated dump from start to end (deterministic: this thread waits for it).
+struct InterleavingWriter {
+    out: Vec<u8>,
+    calls: u64,
+    at: u64,
+    other: Option<Vec<u8>>,
+}
+impl Write for InterleavingWriter {
+    fn write(&mut self, buf: &[u8]) -> std::io::Result<usize> {
+        if self.calls == self.at {
+            if let Some(bytes) = self.other.take() {
+                let _ = std::thread::spawn(move || {
+                    use futures_util::FutureExt;
+                    simkit::hashseed::set_thread_seed(Some(0x0c0c_0c0c));
+                    if let Ok(d) = Minidump::read(bytes) {
+                        let sym = Symbolizer::new(breakpad_symbols::SimpleSymbolSupplier::new(vec![]));
+                        if let Some(Ok(state)) = minidump_processor::process_minidump(&d, &sym).now_or_never() {
+                            let _ = render(&state);
+                        }
+                    }
+                })
+                .join();
+            }
+        }
+        self.calls += 1;
+        self.out.extend_from_slice(buf);
+        Ok(buf.len())
     }
     fn flush(&mut self) -> std::io::Result<()> {
         Ok(())
@@ -235,6 +270,10 @@ pub struct ExecMode {
     /// The executing thread first processes and renders another, unrelated dump (0 = none,
     /// 1 = a 32-bit one, 2 = a 64-bit one): a long-lived worker thread has a history.
     pub previous_job: u8,
+    /// While this execution renders its report, ANOTHER OS thread renders an unrelated dump of
+    /// the other pointer width (0 = no, 1 = a 32-bit one, 2 = a 64-bit one) in the middle of one
+    /// of its write calls: what a multi-threaded host does to process-wide rendering state.
+    pub concurrent_render: u8,
 }
 
 /// Runs inside a sub-execution (own thread, own context).  Every decision comes from the
@@ -417,7 +456,8 @@ pub fn execute(shared: Shared, mode: ExecMode, stack_budget: u64, nthreads: u64)
 
     let outputs: Rc<RefCell<Vec<Option<Renderings>>>> = Rc::new(RefCell::new(vec![None; 1 + mode.companions as usize]));
     let frames: Rc<RefCell<Vec<usize>>> = Rc::new(RefCell::new(Vec::new()));
-    let problems: Rc<RefCell<(Option<String>, Option<String>, Option<String>)>> = Rc::new(RefCell::new((None, None, None)));
+    let problems: Rc<RefCell<(Option<String>, Option<String>, Option<String>, Option<String>)>> = Rc::new(RefCell::new((None, None, None, None)));
+    let concurrent_render = mode.concurrent_render;
     let writer_plan = if mode.faults && chance("e4.writer_fault", 1, 3) { Some((range("e4.writer.fail_at", 0, 20_000) as usize, chance("e4.writer.short", 1, 2))) } else { None };
 
     if mode.previous_job > 0 {
@@ -478,6 +518,29 @@ pub fn execute(shared: Shared, mode: ExecMode, stack_budget: u64, nthreads: u64)
                                 }
                                 if let Err(e) = serde_json::from_slice::<serde_json::Value>(&r.json_pretty) {
                                     problems.borrow_mut().2 = Some(format!("pretty JSON does not parse: {e}"));
+                                }
+                                if concurrent_render > 0 {
+                                    probe("e4.concurrent_render");
+                                    let other = dumpgen::tiny_dump(concurrent_render == 2);
+                                    let at = ch("e4.concurrent_render.at", 12) as u64;
+                                    for which in 0..4 {
+                                        let mut w = InterleavingWriter { out: Vec::new(), calls: 0, at, other: Some(other.clone()) };
+                                        let ok = match which {
+                                            0 => state.print_json(&mut w, false).is_ok(),
+                                            1 => state.print_json(&mut w, true).is_ok(),
+                                            2 => state.print(&mut w).is_ok(),
+                                            _ => state.print_brief(&mut w).is_ok(),
+                                        };
+                                        let want = [&r.json, &r.json_pretty, &r.text, &r.brief][which];
+                                        if !ok || &w.out != want {
+                                            problems.borrow_mut().3 = Some(format!(
+                                                "{} differs when another thread renders a {}-bit dump meanwhile {}",
+                                                ["JSON", "pretty JSON", "text report", "brief text"][which],
+                                                if concurrent_render == 2 { 64 } else { 32 },
+                                                first_diff(want, &w.out)
+                                            ));
+                                        }
+                                    }
                                 }
                                 if let Some((fail_at, short)) = writer_plan {
                                     probe("e4.writer_fault");
@@ -586,6 +649,7 @@ pub fn execute(shared: Shared, mode: ExecMode, stack_budget: u64, nthreads: u64)
         render_problem: p.0,
         writer_problem: p.1,
         json_problem: p.2,
+        concurrent_render_problem: p.3,
         supply_faults,
         cancelled_companion: cancelled,
         per_key: per_key_v,
@@ -643,7 +707,7 @@ pub fn run_c13() -> Outcome {
     let result = (|| -> simkit::Check {
         for i in 0..nexec {
             let sh = shared.clone();
-            let mode = ExecMode { faults: false, companions: if i == 0 { 0 } else { companions }, use_warm_cache: use_http && i >= 1 && (i == 1 || chance("c13.warm_cache", 1, 2)), previous_job: if i == 0 { 0 } else { ch("c13.previous_job", 3) as u8 } };
+            let mode = ExecMode { faults: false, companions: if i == 0 { 0 } else { companions }, use_warm_cache: use_http && i >= 1 && (i == 1 || chance("c13.warm_cache", 1, 2)), previous_job: if i == 0 { 0 } else { ch("c13.previous_job", 3) as u8 }, concurrent_render: if i == 0 { 0 } else { ch("c13.concurrent_render", 3) as u8 } };
             let verbose = simkit::with_ctx(|c| c.verbose);
             let rep = simkit::runner::run_sub_nested("c13.exec", i as u64, i == 0, verbose, move || execute(sh, mode, stack_budget, nthreads));
             for (k, v) in &rep.probes {
@@ -664,6 +728,9 @@ pub fn run_c13() -> Outcome {
             digests.push(rep.digest);
             exec_info.push(json!({"execution": i, "steps": out.steps, "supplier_calls_or_requests": out.requests, "status": out.outputs[0].status, "json_len": out.outputs[0].json.len(), "trace_digest": format!("{:016x}", rep.digest)}));
             simkit::ensure!(out.stop == "done", "c13.not_finished", "an execution ended with {}", out.stop);
+            if let Some(p) = &out.concurrent_render_problem {
+                return Err(Violation::new("c13.render_disturbed", format!("a report was rendered differently while another thread of the process was rendering an unrelated dump ({p})")));
+            }
             // companions inside one execution must agree with the main task
             for (ci, c) in out.outputs.iter().enumerate().skip(1) {
                 if c != &out.outputs[0] {
@@ -1002,7 +1069,7 @@ pub fn run_c03() -> Outcome {
     let verbose = simkit::with_ctx(|c| c.verbose);
     let rep = simkit::runner::run_sub_nested("c03.exec", 0, false, verbose, move || {
         simkit::alloc::set_cap(3usize << 30);
-        execute(sh, ExecMode { faults: true, companions, use_warm_cache: false, previous_job: 0 }, stack_budget, nthreads)
+        execute(sh, ExecMode { faults: true, companions, use_warm_cache: false, previous_job: 0, concurrent_render: 0 }, stack_budget, nthreads)
     });
     for (k, v) in &rep.probes {
         simkit::probe_add(k, *v);
@@ -1170,7 +1237,7 @@ pub fn run_c12_pipeline() -> Outcome {
     let mut failed: Option<Violation> = None;
     for i in 0..2u64 {
         let sh = shared.clone();
-        let mode = ExecMode { faults: false, companions: if i == 0 { 0 } else { companions }, use_warm_cache: false, previous_job: 0 };
+        let mode = ExecMode { faults: false, companions: if i == 0 { 0 } else { companions }, use_warm_cache: false, previous_job: 0, concurrent_render: 0 };
         let rep = simkit::runner::run_sub_nested("c12p.exec", i, i == 0, verbose, move || execute(sh, mode, stack_budget, nthreads));
         for (k, v) in &rep.probes {
             simkit::probe_add(k, *v);
